@@ -476,33 +476,16 @@ impl Decompressor {
             return Ok(ref_data.clone());
         }
 
-        let archive_version = ragc_common::AGC_FILE_MAJOR * 1000 + ragc_common::AGC_FILE_MINOR;
-        let ref_stream_name = stream_ref_name(archive_version, group_id);
-        let stream_id = self
-            .archive
-            .get_stream_id(&ref_stream_name)
-            .ok_or_else(|| anyhow!("Reference stream not found: {}", ref_stream_name))?;
+        // Raw groups (0-15) have no reference stream
+        if group_id < 16 {
+            anyhow::bail!("Reference stream not found: group {group_id} is a raw group");
+        }
 
-        let (mut data, metadata) = self.archive.get_part_by_id(stream_id, 0)?;
-        // Decompress if needed; metadata holds original length for packed format
-        let decompressed = if data.is_empty() {
-            Vec::new()
-        } else if data.last() == Some(&0) {
-            // Plain ZSTD stream with marker 0
-            data.pop();
-            decompress_segment_with_marker(&data, 0)?
-        } else {
-            // Tuple-packed with marker 1
-            let marker = data.pop().unwrap();
-            decompress_segment_with_marker(&data, marker)?
-        };
-
-        // Unpack 2-bit encoded reference to 1-byte bases if needed
-        // decompress_segment_with_marker returns bytes in the stored format for references
-        // Our helper already returns decompressed raw bytes for references
-        let reference = decompressed;
-        self.segment_cache.insert(group_id, reference.clone());
-        Ok(reference)
+        // Load through get_segment, the decoder that fills the cache for every other query
+        // (part metadata 0 = stored as is, otherwise marker byte + ZSTD, then 2-bit unpacking).
+        // A second decoder here guessed the format from the last byte: it failed on references
+        // stored as is, so the answer depended on whether get_segment had run before.
+        self.get_segment(&SegmentDesc::new(group_id, 0, false, 0))
     }
 
     /// Extract all contigs from a sample
